@@ -86,6 +86,14 @@ def run(chk, orch):
     wls.append(({"seed": 27, "n_chr": 2, "genes_per_chr": 1, "reads_per_iso": 2, "paralogs": 0, "novel": 0, "n_exp": 2,
                  "exp_mode": "split", "unmapped": 3, "supplementary": 0, "lowmapq": 0, "intergenic": 0, "mono": 0},
                 {}, dict(common.GOLDEN_CELL, threads=1, bufsize=8192)))
+    # history of the output folder: another data set was processed there before with --keep_tmp (its locks and intermediate
+    # files are still around), then the run under test starts with --force, is killed and resumed
+    wls.append(({"seed": 28, "n_chr": 2, "genes_per_chr": 2, "reads_per_iso": 2, "paralogs": 0, "novel": 0, "n_exp": 2,
+                 "exp_mode": "split", "supplementary": 0, "lowmapq": 0, "intergenic": 0, "mono": 0},
+                {"pre": {"spec": {"seed": 29, "n_chr": 2, "genes_per_chr": 2, "reads_per_iso": 3, "paralogs": 0, "novel": 0,
+                                  "n_exp": 2, "exp_mode": "same", "supplementary": 0, "lowmapq": 0, "intergenic": 0, "mono": 0},
+                         "opts": {"keep_tmp": True, "threads": 1}}},
+                dict(common.GOLDEN_CELL, threads=1, bufsize=8192)))
     if not quick:
         wls += [
             ({"seed": 23, "n_chr": 2, "genes_per_chr": 2, "reads_per_iso": 3, "paralogs": 1, "n_exp": 2},
@@ -105,9 +113,15 @@ def run(chk, orch):
             wls = [(spec, opts, cell)]
         # control runs
         ctl = {}
+        pres = {}
         for wi, (spec, opts, cell) in enumerate(wls):
+            opts = dict(opts)
+            pre = opts.pop("pre", None)
+            wls[wi] = (spec, opts, cell)
+            pres[wi] = pre
+            # the control run (and with it the event labels) goes through the same folder history
             orch.submit(cell["hashseed"], "scenarios:pipeline",
-                        common.job_args(spec, opts, cell, want=["labels"]), tag=("ctl", wi))
+                        common.job_args(spec, opts, cell, want=["labels"], **({"pre": pre} if pre else {})), tag=("ctl", wi))
         for jid, tag, r in orch.results():
             if not r.get("ok"):
                 chk.harness_error(r.get("err"))
@@ -135,6 +149,8 @@ def run(chk, orch):
             for seq, slot, label, occ in cand:
                 for phase in ("before", "after", "after+threads"):
                     a = common.job_args(spec, opts, cell)
+                    if pres.get(wi):
+                        a["pre"] = pres[wi]
                     rs = {}
                     if phase == "after+threads":
                         # --resume with another --threads value (documented as allowed): quick tier, late stages of the
@@ -148,7 +164,11 @@ def run(chk, orch):
                         rs["sched"] = {"policy": chk.rng.choice(common.POLICIES), "seed": chk.rng.randrange(1000)}
                     if not quick and chk.rng.random() < 0.15:
                         # a second kill, this time of the resumed run (flaky cluster), then a final fault-free resume
-                        rs["fault2"] = {"kind": "kill", "index": chk.rng.randrange(2, 160), "phase": chk.rng.choice(["before", "after"])}
+                        rs["fault2"] = {"kind": "kill", "index": chk.rng.randrange(0, 160), "phase": chk.rng.choice(["before", "after"])}
+                    if quick and wi == 0 and phase != "after+threads" and st[seq] in ("collect", "merge") and (seq % 7) < 2:
+                        # the resumed run is killed as well, at one of its first events (it saves its parameters again), then
+                        # resumed once more
+                        rs["fault2"] = {"kind": "kill", "index": seq % 7 + (0 if phase == "before" else 1), "phase": phase}
                     if not quick and chk.rng.random() < 0.1:
                         # options --resume accepts: the memory mode may change between the killed and the resumed run
                         rs["high_memory"] = not cell.get("high_memory", False)
@@ -197,7 +217,8 @@ def run(chk, orch):
                 what += "\n" + res["log_tail"][-500:]
             chk.violation(clause, attrs, what, {
                 "engine": "pipeline", "oracle": "golden_equality",
-                "golden": {"hashseed": cell["hashseed"], "fn": "scenarios:pipeline", "args": common.job_args(spec, opts, cell)},
+                "golden": {"hashseed": cell["hashseed"], "fn": "scenarios:pipeline",
+                           "args": common.job_args(spec, opts, cell, **({"pre": pres[wi]} if pres.get(wi) else {}))},
                 "run": {"hashseed": cell["hashseed"], "fn": "scenarios:crash_resume", "args": a},
                 "expected": {"symptom": sym, "trace_sha256": res.get("trace_sha")}})
         chk.extra["crash_points_enumerated_exhaustively_per_workload"] = not quick
